@@ -550,6 +550,8 @@ def check(tier: str, seed: int) -> Result:
         per[key] = {"batch": list(batch), "workers": nworkers, "bound": bound, "fine": fine, "executions": 1, "transitions": len(x0.points),
                     "points_default_run": len(x0.points), "by_preemptions": {0: 1}, "outcomes": {outcome_any(x0): 1},
                     "failures": [([], 0, bad0)] if bad0 else [], "capped": False}
+        if x0.livelock:
+            continue  # the default schedule itself never comes to rest: reported below, nothing to branch from
         for i, p in enumerate(x0.points):
             if (1 if p.running_enabled else 0) <= bound:
                 for alt in range(1, len(p.enabled)):
